@@ -5,6 +5,8 @@ cd "$(dirname "$0")"
 export CARGO_NET_OFFLINE=true
 mkdir -p .cache evidence replays
 ( cd coq && ./gen_project.sh && timeout 3000 make -j16 ) 
-cp -f /repo/Cargo.lock harness/Cargo.lock
-( cd harness && RUSTFLAGS="--cfg searchlite_verif" CARGO_TARGET_DIR=/verif/.cache/target timeout 3000 cargo build --offline --bins )
+REPO="${SLV_REPO:-/repo}"
+sed "s#@REPO@#$REPO#g" harness/Cargo.toml.in > harness/Cargo.toml
+cp -f "$REPO/Cargo.lock" harness/Cargo.lock
+( cd harness && RUSTFLAGS="--cfg searchlite_verif" CARGO_TARGET_DIR="${SLV_TARGET:-$PWD/../.cache/target}" timeout 3000 cargo build --offline --bins )
 echo "setup ok"
